@@ -215,4 +215,46 @@ theorem evalFlows_length (p : Bpmn.Model.Engine.Proc) (s : Bpmn.Model.Engine.St)
   have := congrArg List.length (evalFlows_keys p s fls u)
   simpa using this
 
+open Bpmn.Model.Engine in
+theorem evalFlow_vars (p : Proc) (s : St) (fl : String) (u : Bool) : (evalFlow p s fl u).2.vars = s.vars := by
+  unfold evalFlow
+  split
+  · rfl
+  · split
+    · rfl
+    · split <;> rfl
+
+open Bpmn.Model.Engine in
+/-- **A true condition is found true wherever it is listed** — before or after conditions that are false or fail to
+evaluate: its verdict is `true` in the result of `evalFlows` (C05-13: a probe that stops at the first failure loses it). -/
+theorem evalFlows_true_kept (p : Proc) (fls : List String) (f : String) (fl : SFlow)
+    (hf : f ∈ fls) (hfl : p.flow? f = some fl) :
+    ∀ (s : St), fl.cond.eval s.vars = .yes → (f, true) ∈ (evalFlows p s fls false).1 := by
+  intro s hy
+  unfold evalFlows
+  -- generalise over the accumulator: whatever is in it stays, and `f` is added with `true` when its turn comes
+  have key : ∀ (l : List String) (acc : List (String × Bool)) (s' : St), s'.vars = s.vars →
+      ((f, true) ∈ acc ∨ f ∈ l) →
+      (f, true) ∈ (l.foldl (fun (x : List (String × Bool) × St) fl' =>
+        let r := evalFlow p x.2 fl' false; (x.1 ++ [(fl', r.1)], r.2)) (acc, s')).1 := by
+    intro l
+    induction l with
+    | nil => intro acc s' _ h; rcases h with h | h; exact h; exact absurd h (by simp)
+    | cons x xs ih =>
+      intro acc s' hv h
+      simp only [List.foldl_cons]
+      apply ih
+      · rw [evalFlow_vars]; exact hv
+      · rcases h with h | h
+        · exact Or.inl (List.mem_append_left _ h)
+        · rcases List.mem_cons.mp h with e | h'
+          · left
+            subst e
+            have : (evalFlow p s' f false).1 = true := by
+              unfold evalFlow
+              simp only [Bool.false_eq_true, if_false, hfl, hv, hy]
+            simp [this]
+          · exact Or.inr h'
+  exact key fls [] s rfl (Or.inr hf)
+
 end Bpmn.Props.C05
